@@ -3,7 +3,7 @@
    kind_ladder / handlers / decorator tables / kind_map are Gen/C17_tables.v, regenerated from /repo on every run. *)
 From Coq Require Import List ZArith String Bool Arith.
 From Verif Require Import Lib.Sexp Model.C02_kinds Model.C02_params Proofs.C02_params Model.C17_base Gen.C17_tables Model.C17_agents Proofs.C17_agents
-  Model.C17_bases Proofs.C17_bases.
+  Model.C17_bases Proofs.C17_bases Model.C17_pyobj Proofs.C17_pyobj Model.C17_star Proofs.C17_star.
 From Verif Require Model.C04_scope.
 Import ListNotations.
 Open Scope string_scope. Open Scope list_scope. Open Scope nat_scope.
@@ -83,11 +83,13 @@ Theorem C17_alias_rule_refuted_same_components :
 Proof. exact alias_rule_refuted_same_components. Qed.
 Print Assumptions C17_alias_rule_refuted_same_components.
 
-(* imported module: alias to the module's own path, or nothing when it is the submodule the loader attaches *)
+(* imported module: alias to the module's own path -- whatever its name (underscore twins of the importing module and
+   built-in `_x` modules included, since the repair of F4's module variant and of F11) -- or nothing when it is the
+   submodule the loader attaches *)
 Theorem C17_alias_module_rule :
   forall sc e M P cur name hf,
   ae_has_parent e = true -> ae_parent_mod e = Some M -> ae_child_mod e = Some P ->
-  cyclic M P = false -> same_components M P = false -> not_builtin_like e P ->
+  cyclic M P = false ->
   inspect_child (runtime_features (DImported sc TModule)) e cur name hf =
   if path_eqb P (cur ++ [name]) then (if hf then MNothing else MObj GModule []) else MAlias P.
 Proof. exact dynamic_module_rule. Qed.
@@ -97,8 +99,7 @@ Theorem C17_submodule_import_no_member :
   forall m sub e hf,
   m_path m <> [] -> m_init m = true ->
   ae_has_parent e = true -> ae_parent_mod e = Some (m_path m) -> ae_child_mod e = Some (m_path m ++ [sub]) ->
-  cyclic (m_path m) (m_path m ++ [sub]) = false -> same_components (m_path m) (m_path m ++ [sub]) = false ->
-  not_builtin_like e (m_path m ++ [sub]) -> hf = true ->
+  cyclic (m_path m) (m_path m ++ [sub]) = false -> hf = true ->
   visit_importfrom (m_path m) m (mkImp 1 [] sub None) = MNothing /\
   inspect_child (runtime_features (DImported SMod TModule)) e (m_path m) sub hf = MNothing.
 Proof. exact submodule_import_no_member. Qed.
@@ -209,3 +210,101 @@ Theorem C17_base_name_is_python_binding :
   C04_scope.resolve (c04_chain sc) n = C04_scope.py_lookup (c04_chain sc) n.
 Proof. exact base_name_python_binding. Qed.
 Print Assumptions C17_base_name_is_python_binding.
+
+(* ---- the trusted base stated once (Model/C17_pyobj.v: attribute access on a class / module, inspect.is*, callable,
+   what each statement stores): the 14 observations tabulated per definition form are the derived ones ... *)
+Theorem C17_observations_derived :
+  forall d p, derived_features d p = runtime_features d p.
+Proof. exact derived_is_table. Qed.
+Print Assumptions C17_observations_derived.
+
+(* ... so the kind theorem holds over the derived observations *)
+Theorem C17_kind_agrees_derived :
+  forall d e p cur name hf,
+  is_import d = false ->
+  ae_child_mod e = Some p -> ae_parent_mod e = Some p ->
+  skeleton (inspect_child (derived_features d) e cur name hf) = skeleton (visitor_member d).
+Proof. exact kind_agrees_derived. Qed.
+Print Assumptions C17_kind_agrees_derived.
+
+(* for EVERY vector of observations and every environment: the Inspector's member is a plain attribute iff the ladder
+   ends on ATTRIBUTE *)
+Theorem C17_plain_attribute_iff :
+  forall f e cur name hf, skeleton (inspect_child f e cur name hf) = plain_skel <-> inspector_okind f = KAttribute.
+Proof. exact child_plain_iff. Qed.
+Print Assumptions C17_plain_attribute_iff.
+
+(* NAME = <value>, any value of the object universe (nested wrappers included), any scope, any environment: the agents
+   agree exactly when the value is plain; gap F9 is the negation *)
+Theorem C17_assigned_agrees_iff :
+  forall sc v e cur name hf,
+  skeleton (inspector_xmember (XAssigned sc v) e cur name hf) = skeleton (visitor_xmember (XAssigned sc v))
+  <-> gap_assigned (XAssigned sc v) = false.
+Proof. exact assigned_agrees_iff. Qed.
+Print Assumptions C17_assigned_agrees_iff.
+
+Theorem C17_assigned_refuted :
+  gap_assigned (XAssigned SMod (OFunction false)) = true /\
+  gap_assigned (XAssigned SMod (OPartial (OFunction false))) = true /\
+  gap_assigned (XAssigned SCls OClass) = true /\
+  inspect_member (observe false (OFunction false)) = MObj GFunction [] /\
+  visitor_xmember (XAssigned SMod (OFunction false)) = MObj GAttribute ["module-attribute"].
+Proof. exact assigned_refuted. Qed.
+Print Assumptions C17_assigned_refuted.
+
+Theorem C17_annotated_bound_agrees :
+  forall sc cv e cur name hf,
+  skeleton (inspector_xmember (XAnnotated sc cv true) e cur name hf) = skeleton (visitor_xmember (XAnnotated sc cv true)).
+Proof. exact annotated_bound_agrees. Qed.
+Print Assumptions C17_annotated_bound_agrees.
+
+(* NAME: ann without value: static-only; the stated exception "instance attributes" covers it exactly in a class body
+   without ClassVar, otherwise it is gap F10 *)
+Theorem C17_annotated_unbound :
+  forall sc cv e cur name hf,
+  inspector_xmember (XAnnotated sc cv false) e cur name hf = MNothing /\
+  member_gkind (visitor_xmember (XAnnotated sc cv false)) = Some GAttribute /\
+  (gap_unbound (XAnnotated sc cv false) = false <-> (in_class sc = true /\ cv = false)).
+Proof. exact annotated_unbound. Qed.
+Print Assumptions C17_annotated_unbound.
+
+(* ---- `import a.b.c [as x]` in module M or in a class body of M: both agents record an alias to the bound module,
+   unless it is M itself (F6) *)
+Theorem C17_import_stmt_agrees :
+  forall sc M cur name asname builtins hf,
+  binds_ancestor M name asname = false ->
+  cyclic M (import_bound name asname) = false ->
+  import_bound name asname <> cur ++ [fst (visit_import name asname)] ->
+  snd (inspect_import sc M cur name asname builtins hf) = snd (visit_import name asname) /\
+  fst (inspect_import sc M cur name asname builtins hf) = fst (visit_import name asname).
+Proof. exact import_stmt_agrees. Qed.
+Print Assumptions C17_import_stmt_agrees.
+
+Theorem C17_import_stmt_self :
+  forall sc M cur name asname builtins hf,
+  binds_ancestor M name asname = true ->
+  snd (inspect_import sc M cur name asname builtins hf) = MNothing /\ snd (visit_import name asname) = MAlias M.
+Proof. exact import_stmt_self. Qed.
+Print Assumptions C17_import_stmt_self.
+
+Theorem C17_import_stmt_refuted_self :
+  exists sc M cur name asname builtins hf,
+    snd (visit_import name asname) = MAlias ["pkg"] /\ snd (inspect_import sc M cur name asname builtins hf) = MNothing.
+Proof. exact import_stmt_refuted_self. Qed.
+Print Assumptions C17_import_stmt_refuted_self.
+
+(* ---- wildcard imports: the names expand_wildcards brings are the names CPython binds, for every member list of the
+   source module and every __all__ that CPython accepts ... *)
+Theorem C17_wildcard_names_agree :
+  forall all ms ns l,
+  namespace_of ms ns -> cpython_star all ns = Some l ->
+  forall n, In n (griffe_star all ms) <-> In n l.
+Proof. exact star_names_agree. Qed.
+Print Assumptions C17_wildcard_names_agree.
+
+(* ... and for every module body (any interleaving of definitions and wildcard imports) each name is bound, in the
+   loaded tree, by the statement whose binding survives at runtime *)
+Theorem C17_wildcard_binder_agree :
+  forall n body, griffe_binder n body = cpy_binder n 0 body None.
+Proof. exact binder_agree. Qed.
+Print Assumptions C17_wildcard_binder_agree.
